@@ -262,6 +262,9 @@ def enc_brackets(tb, rng, gf=False, emptyroot=None, disco=False, emptypos=False)
         rng.choice(["line", "tight", "ptb", "loose"])
     if emptyroot is None:
         emptyroot = rng.random() < 0.4
+    # discobrackets: one tree per line, but the line may be indented (the reader lexes
+    # "any kind of indentation") and blank lines may separate the trees
+    indent = disco and rng.random() < 0.25
     out = []
 
     def lab(label, edge):
@@ -302,6 +305,10 @@ def enc_brackets(tb, rng, gf=False, emptyroot=None, disco=False, emptypos=False)
             res = node(s, r, 0)
         if disco:
             res += "\t" + " ".join(t[0] for t in s["tokens"])
+            if indent and rng.random() < 0.6:
+                res = rng.choice([" ", "  ", "\t", "    "]) + res
+            if indent and rng.random() < 0.2:
+                out.append(rng.choice(["\n", "  \n"]))
         out.append(res + "\n")
         if not disco and rng.random() < 0.2:
             out.append("\n")
@@ -369,7 +376,7 @@ def dec_brackets(text, disco=False):
     sents = []
     while True:
         if disco:
-            while pos[0] < n and text[pos[0]] in "\n\r":
+            while pos[0] < n and text[pos[0]] in "\n\r \t":
                 pos[0] += 1
         else:
             skip()
